@@ -456,12 +456,40 @@ func grid(prop string, thorough bool) []Job {
 				return wi < wj
 			})
 		} else {
-			addAll(retryScenarios("H1T", false), 1)
+			// (quick tier: the budget is 100 s; the thinning below keeps every fault
+			// kind, every stop point class and every history, and drops repetitions
+			// of one class at neighbouring packet indexes / the deepest bound)
+			for _, sc := range retryScenarios("H1T", false) {
+				if strings.Contains(sc.Name, "/first/retry/cancel-released@") && !strings.HasSuffix(sc.Name, "0") && !strings.HasSuffix(sc.Name, "3") && !strings.HasSuffix(sc.Name, "6") && !strings.HasSuffix(sc.Name, "9") {
+					continue // master far ahead: the released-trigger differs from its neighbours only in how much is buffered
+				}
+				jobs = append(jobs, Job{Sc: sc, Bound: 1})
+			}
 			for _, sc := range retryScenarios("H2", false) {
 				sc.DelayBound = true // context-bounded on H1T, delay-bounded on the rotation history
-				jobs = append(jobs, Job{Sc: sc, Bound: 2})
+				b := 2
+				if len(sc.Attempts) > 2 {
+					b = 1 // two failed attempts: one delay
+				}
+				jobs = append(jobs, Job{Sc: sc, Bound: b})
 			}
-			addAll(retrySimple("H4"), 2)
+			for _, sc := range retrySimple("H4") {
+				b := 2
+				if !strings.Contains(sc.Name, "cancel") && !strings.Contains(sc.Name, "handler") && !strings.Contains(sc.Name, "mapper") {
+					b = 1 // master-side faults: the variety of commit units matters here, not deep schedules
+				}
+				jobs = append(jobs, Job{Sc: sc, Bound: b})
+			}
+		}
+		// a file that ends with STOP (the next one is announced by the artificial
+		// ROTATE only) and transactions without events: connection lost at every packet
+		for _, pacing := range []string{"first", "lock"} {
+			for at := 2; at < len(served("H13")); at++ {
+				sc := base(fmt.Sprintf("H13/%s/retry/fin@%d", pacing, at), "H13", pacing)
+				sc.Attempts = []e1.Attempt{att(simmaster.Plan{At: at, Kind: "fin", Final: "silent"}), clean()}
+				sc.DelayBound = true
+				jobs = append(jobs, Job{Sc: sc, Bound: 1})
+			}
 		}
 	case "C07":
 		jobs = append(jobs, handshakeJobs(thorough)...)
@@ -492,6 +520,22 @@ func handshakeJobs(thorough bool) []Job {
 					sc.Attempts = []e1.Attempt{clean()}
 					jobs = append(jobs, Job{Sc: sc, Bound: bound})
 				}
+			}
+		}
+	}
+	// a file that ends with STOP (no real ROTATE): the connection is lost at every
+	// packet of the dump, then a second attempt
+	{
+		n13 := len(served("H13"))
+		for _, pacing := range []string{"first", "lock"} {
+			for at := 2; at < n13; at++ {
+				if !thorough && at%2 == 1 {
+					continue
+				}
+				sc := base(fmt.Sprintf("H13/%s/retry/fin@%d", pacing, at), "H13", pacing)
+				sc.ServerID = 9
+				sc.Attempts = []e1.Attempt{att(simmaster.Plan{At: at, Kind: "fin", Final: "silent"}), clean()}
+				jobs = append(jobs, Job{Sc: sc, Bound: bound})
 			}
 		}
 	}
@@ -577,6 +621,12 @@ func aliasJobs(thorough bool) []Job {
 			a := clean()
 			a.HandlerMode = mode
 			sc.Attempts = []e1.Attempt{a}
+			jobs = append(jobs, Job{Sc: sc, Bound: bound})
+		}
+		{
+			// transactions without events must be objects of their own too
+			sc := base(fmt.Sprintf("H13/%s/ok", pacing), "H13", pacing)
+			sc.Attempts = []e1.Attempt{clean()}
 			jobs = append(jobs, Job{Sc: sc, Bound: bound})
 		}
 		for _, mode := range []string{"ok", "scribble"} {
